@@ -153,6 +153,38 @@ def run_slice(case, stt):
         must_raise("slice with negative step", lambda: z[::-1], (AssertionError, ValueError, IndexError))
 
 
+# -- 1b. a user subclass whose constructor fixes the rate -------------------------------------------------------------
+
+
+def run_fixed_rate(case, stt):
+    """A user-defined subclass with a NARROWER constructor (the rate is a class constant, there is no sample_rate parameter): an operation that
+    has to change the rate either produces a result with the right clock or refuses -- it never returns samples stamped with the wrong times."""
+    import pulsarbat as pb
+
+    class FixedRate(pb.Signal):
+        def __init__(self, z, /, *, start_time=None, meta=None):
+            super().__init__(z, sample_rate=2 * u.kHz, start_time=start_time, meta=meta)
+
+    n = case["n"]
+    t0 = G.mk_time(case["t0"])
+    z = FixedRate(np.arange(n, dtype=np.float64), start_time=t0)
+    s = _sl(case["t"])
+    start, stop, step = s.indices(n)
+    L = len(range(start, stop, step))
+    try:
+        y = z[s]
+    except (TypeError, ValueError):
+        stt.label("refused")
+        stt.nt(step > 1)
+        return
+    r0 = F(2000)
+    T1 = None if t0 is None else O.T(z.start_time) + start / r0
+    check_clock(y, T1, r0 / step, L, 1, start / r0, 1 if step > 1 else 0, "slice of a fixed-rate user subclass")
+    check(bits_equal(np.asarray(y.data), np.arange(n, dtype=np.float64)[s]), "slice of a fixed-rate user subclass: wrong samples")
+    stt.nt(step > 1)
+    stt.label("returned_step%s" % ("1" if step == 1 else ">1"))
+
+
 # ---------------------------------------------------------------------------------------------
 # 2. pipelines of cropping operations (state machine)
 # ---------------------------------------------------------------------------------------------
@@ -531,6 +563,9 @@ SUBS = [
         "any class/length/rate/start x z[a:b:c] (+ channel range) with None/negative/out-of-range bounds; non-trivial = drops >=1 "
         "leading sample, result non-empty, and (step>1 or a negative/out-of-range bound or rate >= 1 MHz)",
         quick=2500, thorough=60000),
+    Sub("fixed_rate_subclass", st.fixed_dictionaries({"n": st.integers(0, 40), "t": G.slices(40), "t0": st.one_of(st.none(), G.time0())}), run_fixed_rate,
+        "a user subclass of Signal whose constructor has no sample_rate parameter (2 kHz fixed), length 0..40, every slice: either the result has the "
+        "right clock and samples or the slice is refused; non-trivial = step > 1", quick=300, thorough=5000, pieces_quick=2),
     MachineSub("pipeline", PipeMachine,
                "rule-based machine: slices, fast_len, cropped time shifts (scalar/array/time, integer/fractional), snippets in all "
                "forms, coherent and incoherent dedispersion, sample_rate / start_time assignment on the current object, ledger checked after every step; non-trivial = >=2 steps that drop "
